@@ -143,6 +143,10 @@ def auto_discharge(prog, s):
     if k.startswith("assert:"):
         if all(o[0] == "k" for o in s["ops"]):
             return "both operands constant"
+    if k in ("assert:overflow_Add", "assert:overflow_Mul") and len(s["ops"]) == 2:
+        ba, bb = _upper_bound(prog, f, s["ops"][0]), _upper_bound(prog, f, s["ops"][1])
+        if ba is not None and bb is not None and max(ba, bb) <= 1 << 20:
+            return "both operands have small static upper bounds (%d, %d): constants, char::len_utf8 (<= 4), count() after take(k)" % (ba, bb)
     if k == "assert:overflow_Sub" and len(s["ops"]) == 2:
         g = _dominating_le(f, s["bb"], s["ops"][1], s["ops"][0])
         if g:
@@ -159,6 +163,42 @@ def auto_discharge(prog, s):
                     if only_returns(g, ("Some", "Ok")):
                         return "callee %s returns Some/Ok on every path" % g.id
     return None
+
+
+def _upper_bound(prog, f, op, depth=0):
+    """a static upper bound of an unsigned operand, or None: literal constants, char::len_utf8() <= 4, Iterator::count() of a
+    pipeline that went through take(k) with a literal k, and sums/products of such values"""
+    if depth > 6:
+        return None
+    if op[0] == "k":
+        m = re.match(r"^(\d+)_[ui](8|16|32|64|128|size)$", str(op[1].get("v", "")))
+        return int(m.group(1)) if m else None
+    best = None
+    from ..query import iter_chain
+    for o in f.trace_operand(op):
+        b = None
+        if o.kind == "const":
+            m = re.match(r"^(\d+)_[ui](8|16|32|64|128|size)$", str(o.ref.get("v", "")))
+            b = int(m.group(1)) if m else None
+        elif o.kind == "call" and o.ref.name == "len_utf8":
+            b = 4
+        elif o.kind == "call" and o.ref.name == "count" and o.ref.args:
+            ad, _ = iter_chain(prog, f, o.ref.args[0])
+            ks = []
+            for ff, c in ad:
+                if c.name == "take" and len(c.args) > 1:
+                    kb = _upper_bound(prog, ff, c.args[1], depth + 1)
+                    if kb is not None:
+                        ks.append(kb)
+            b = min(ks) if ks else None
+        elif o.kind == "op" and o.ref[2][0] in ("bin", "checked") and o.ref[2][1] in ("Add", "Mul", "AddWithOverflow", "MulWithOverflow"):
+            x, y = _upper_bound(prog, f, o.ref[2][2], depth + 1), _upper_bound(prog, f, o.ref[2][3], depth + 1)
+            if x is not None and y is not None:
+                b = x + y if o.ref[2][1].startswith("Add") else x * y
+        if b is None:
+            return None
+        best = b if best is None else max(best, b)
+    return best
 
 
 def _ident(f, op):
@@ -294,6 +334,12 @@ def _moved_row(table, s, live_keys, used):
         # loop <-> closure: the item of the iteration is a closure parameter in one form and a next() result in the other
         a, b = od.split(" , "), nd.split(" , ")
         closure_side = "{closure" in parts[0] or "{closure" in fid
+        # a combinator replaced by its definition (or back) inside the same function: `opt.unwrap_or(d)` <-> `match opt { Some(c) => c, None => d }`
+        comb = re.compile(r"^result of core::(option::Option|result::Result)::<[^>]*>::(unwrap_or|unwrap_or_else|unwrap_or_default|map_or|map_or_else|copied|cloned)(\.\w+|\(\)\w+)*$")
+        plain = lambda x: all(re.match(r"^(param |const )", alt.strip()) for alt in x.split(" | "))  # noqa: E731
+        if parts[0] == fid and len(a) == len(b) and any(x == y and x != "*" for x, y in zip(a, b)) and all(
+                x == y or (comb.match(x) and plain(y)) or (comb.match(y) and plain(x)) for x, y in zip(a, b)):
+            loose = loose or k
         if closure_side and len(a) == len(b) and all(x == y or x == "*" or y == "*" or (x.startswith("param ") and y == "*") or (y.startswith("param ") and x == "*") for x, y in zip(a, b)) \
                 and any(x == y and x != "*" for x, y in zip(a, b)):
             loose = loose or k
